@@ -59,7 +59,7 @@ theorem is_square_eq (x : Int) : is_square x = isSquare x := by
     · rw [isqrt_eq]
       cases NumTh.isqrt x with
       | error e => rfl
-      | ok y => first | rfl | (simp [pyPow]; rfl)
+      | ok y => rfl
 
 /-! ### gcdext -/
 
@@ -464,7 +464,7 @@ theorem fppSmall_loop (isP : Int → Bool) (x0 : Int)
                   .ok (.brk (x, d))) (x0.toNat + 1) (x, 0))
             (fun r => nomatch r)
             (fun st => match st with
-              | (x, d) => .ok (.ret (p, d)))
+              | (_, d) => .ok (.ret (p, d)))
         else
           match next_prime isP p with
           | .error exc_ => .error exc_
@@ -502,7 +502,7 @@ theorem fppSmall_loop (isP : Int → Bool) (x0 : Int)
                     .error .valueError
                 else
                   .ok (.brk (x, d))) (fun _ _ => rfl)
-          (fun st => match st with | (x, d) => .ok (.ret (p, d))) (fun _ _ => rfl) (x0.toNat + 1) x0 0
+          (fun st => match st with | (_, d) => .ok (.ret (p, d))) (fun _ _ => rfl) (x0.toNat + 1) x0 0
         simp only [Nat.cast_zero] at hd
         rw [hd]
         cases divOut p (x0.toNat + 1) x0 0 with
